@@ -321,12 +321,14 @@ const TEMPLATES: &[&[(&str, &[&str])]] = &[
     &[("S", &["A", "d"]), ("A", &["a b S"])],
     // 26 indirect left recursion through a unit chain with a second, merged context
     &[("S", &["A", "a A b"]), ("A", &["B"]), ("B", &["C"]), ("C", &["A b", ""])],
+    // 27 hidden right recursion whose tail is nullable only indirectly
+    &[("S", &["a S A", "b"]), ("A", &["B"]), ("B", &[""])],
 ];
 
 /// right-nullable shapes (for right-nulled table cells)
-pub const RN_TEMPLATES: &[usize] = &[5, 8, 9, 10, 12, 13, 14, 17, 23, 24, 26];
+pub const RN_TEMPLATES: &[usize] = &[5, 8, 9, 10, 12, 13, 14, 17, 23, 24, 26, 27];
 /// the same, one by one (for enumeration)
-pub const RN_SINGLE: &[&[usize]] = &[&[5], &[8], &[9], &[10], &[12], &[13], &[14], &[17], &[23], &[24], &[26]];
+pub const RN_SINGLE: &[&[usize]] = &[&[5], &[8], &[9], &[10], &[12], &[13], &[14], &[17], &[23], &[24], &[26], &[27]];
 
 fn build_template(raw: &RawG, pool: &[TermSpec], set: &[usize]) -> GrammarSpec {
     let tpl = if set.is_empty() { TEMPLATES[pick(raw.template, TEMPLATES.len())] } else { TEMPLATES[set[pick(raw.template, set.len())]] };
